@@ -734,3 +734,37 @@ def _dict_instances(m):
 
 CUSTOM['pane.classes:PaneBase.__repr__'] = _repr_instances
 CUSTOM['pane.classes:PaneBase.dict'] = _dict_instances
+
+
+# ---- constructor cases (bounded contract construct.bounded) -------------------------------------------------------------------
+def _construct_case(cls, args, kwargs):
+    try:
+        return ('ok', cls(*args, **kwargs))
+    except pane.ConvertError as e:
+        return ('ConvertError', e)
+    except TypeError as e:
+        return ('TypeError', e)
+
+
+def _construct_instances(m):
+    cases = [
+        (P2, ('a', 'b'), {}), (P2, (), {'a': 'x'}), (P2, (1,), {}), (P2, ('a',), {'a': 'b'}), (P2, (), {'zz': 1}),
+        (PT, (1,), {}), (PT, (1, 2), {'label': 'q'}), (PT, (1, 3.0), {}), (PT, (True,), {}), (PT, (1,), {'hi': 3}), (PT, ('x',), {}),
+        (PAlias, (3,), {}), (PAlias, (3, 1), {}), (PAlias, (3,), {'tags': ('a', 'b')}), (PAlias, (3,), {'tags': ['a', 1]}), (PAlias, (), {}),
+        (PReq, (1,), {}), (PReq, (1, None), {}), (PReq, (1, 'm'), {}), (PReq, ('1',), {}),
+        (PNest, (), {'inner': PReq(n=1)}), (PNest, (), {'inner': PReq(n=1), 'items': [PAlias(width=1), PAlias(width=2, height=2.5)]}),
+        (PNest, (), {'inner': {'n': 1}, 'items': [{'W': 1}]}), (PNest, (), {'inner': PReq(n=1), 'items': [PAlias(width=1), {'width': 'bad'}]}),
+        (PMut, (), {}), (PMut, (1,), {}), (PMut, (1.0,), {}), (PMut, (True, 'x'), {}), (PMut, (), {'c': (1, 2)}), (PMut, (), {'c': [PReq(n=1)]}),
+        (PHook, (1, 2), {}), (PRen, ('a',), {}), (PRen, (), {'first_name': 'a', 'last_name': 'b'}),
+    ]
+    return [(_construct_case, ['cls', 'args', 'kwargs'], (c, a, k), f'{c.__name__}(*{a!r}, **{k!r})') for c, a, k in cases]
+
+
+CUSTOM['pane.classes:construct.bounded'] = _construct_instances
+VALUES.extend([{'width': 3, 'height': None}, {'lo': 1, 'hi': None}, {'a': 'x', 'b': None}, {'k': None}])
+
+# error-tree shapes for the rendering contract: a chain (struct whose only failing field is a struct) that ALSO has missing / extra
+# fields of its own; a union whose FIRST alternative is itself a union
+TYPES.extend([{'inner': {'a': int}, 'y': int}, t.Union[t.Annotated[t.Union[int, float], Positive], t.List[str]],
+              {'f': t.Optional[t.Annotated[t.Union[int, float], Positive]]}])
+VALUES.extend([{'inner': {'a': 'x'}}, {'inner': {'a': 'x'}, 'y': 1, 'zz': 2}, {'inner': {'a': 'x'}, 'zz': 2}, {'f': -3}, {'f': 'q'}])
